@@ -91,6 +91,7 @@ def compare(rep, exe, invocations, label="grouping"):
         d = impl_groups[j]
         rep.count(label + ":" + str(impl_v).split(":")[0])
         # hypotheses of C05_flat_order_free_exec evaluated on this input (last two entries of every `parse` answer)
+        fd_ = fs_ = None
         try:
             if v[0] == "ok":
                 # ok-answer: [..., acyclicB, traceCovers, noNesting, flatWF, per-family e2e flags, flatInputOK]
@@ -112,8 +113,40 @@ def compare(rep, exe, invocations, label="grouping"):
                     if not all(fl[2] == "1" for fl in v[6]):
                         rep.broken.append("instance of C02_end_to_end_flat_memberOK_input false in the executable model: " + inv[:400])
                 flat = (v[0], nn_, fw_)
+                # C11_partition: headersWF (shape of the individual headers) => every block placed exactly once (traceCovers)
+                if len(v) > 11:
+                    if v[8] == "1":
+                        rep.count("theorem-instances-checked:C11_partition (headersWF)")
+                        if v[3] != "1" or v[2] != "1":
+                            rep.broken.append("instance of C11_acyclic_of_headersWF / C11_traceCovers_of_headersWF false in the executable model: " + inv[:400])
+                    else:
+                        rep.count("theorem-not-applicable:C11_partition (headersWF fails)")
+                    # C02_end_to_end_memberOK / _thetaCovers (nested invocations), per family
+                    for fl, nl in zip(v[6], v[9]):
+                        if nl[0] == "1":
+                            rep.count("theorem-instances-checked:C02_end_to_end_memberOK")
+                            if fl[2] != "1":
+                                rep.broken.append("instance of C02_end_to_end_memberOK false in the executable model: " + inv[:400])
+                        else:
+                            rep.count("theorem-not-applicable:C02_end_to_end_memberOK (nestedGroupOK fails)")
+                        if nl[1] == "1":
+                            rep.count("theorem-instances-checked:C02_end_to_end_thetaCovers")
+                            if fl[3] != "1":
+                                rep.broken.append("instance of C02_end_to_end_thetaCovers false in the executable model: " + inv[:400])
+                    fd_, fs_ = v[10] == "1", v[11] == "1"
             else:
-                flat = (v[0], v[-2] == "1", v[-1] == "1")
+                flat = (v[0], v[2] == "1", v[3] == "1")
+                fd_, fs_ = (v[4] == "1", v[5] == "1") if len(v) > 5 else (None, None)
+            # C03_flat_accepts_exec / C03_flat_acceptance_exact: for un-nested flatWF inputs, accepted <=> every bucket separated;
+            # distinguished (pairwise non-generalising bindings of a shared associated type) => accepted
+            if flat[1] and flat[2] and fd_ is not None:
+                rep.count("theorem-instances-checked:C03_flat_acceptance_exact")
+                if (v[0] == "ok") != fs_:
+                    rep.broken.append("instance of C03_flat_acceptance_exact false in the executable model: " + inv[:400])
+                if fd_:
+                    rep.count("theorem-instances-checked:C03_flat_accepts_exec")
+                    if v[0] != "ok":
+                        rep.broken.append("instance of C03_flat_accepts_exec false in the executable model: " + inv[:400])
             if not hasattr(rep, "flat_info"):
                 rep.flat_info = {}
             rep.flat_info[inv] = flat
